@@ -114,6 +114,10 @@ def cases(sh, tier):
         yield {"a": a, "op": op, "form": "sa", "s": 2}
         yield {"a": a, "op": op, "form": "as", "s": 2.5}
         yield {"a": a, "op": op, "form": "sa", "s": 2.5}
+        # the scalar is a NumPy scalar (what a.mean(), a.values[0] or np.float64(...) give), on either side
+        yield {"a": a, "op": op, "form": "as", "s": 2.5, "st": "np"}
+        yield {"a": a, "op": op, "form": "sa", "s": 2.5, "st": "np"}
+        yield {"a": a, "op": op, "form": "sa", "s": 2, "st": "np"}
         yield {"a": a, "op": op, "form": "an"}
 
 
@@ -133,10 +137,13 @@ def check(case):
     op, form = case["op"], case["form"]
     snapA = common.snap(A)
     if form in ("as", "sa", "an"):
+        sc = case.get("s")
+        if case.get("st") == "np":
+            sc = np.float64(sc) if isinstance(sc, float) else np.int64(sc)
         if form == "as":
-            got = call(PYOP[op], A, case["s"]); exp = OPS[op](ra.vals, case["s"])
+            got = call(PYOP[op], A, sc); exp = OPS[op](ra.vals, case["s"])
         elif form == "sa":
-            got = call(PYOP[op], case["s"], A); exp = OPS[op](case["s"], ra.vals)
+            got = call(PYOP[op], sc, A); exp = OPS[op](case["s"], ra.vals)
         else:
             other = (np.arange(ra.vals.size).reshape(ra.vals.shape) % 3 + 1).astype(float)
             got = call(PYOP[op], A, other); exp = OPS[op](ra.vals, other)
